@@ -56,7 +56,16 @@ def helper_closure(prog, found, reviewed):
                 changed = True
                 continue
             callers = {_root(c.body.npath) for c in prog.who_calls(rx) if c.body.crate.startswith("pasfmt")}
-            if callers and all(c in okroots or any(c.startswith(r + "::") for r in okroots if not r.startswith("<")) for c in callers):
+
+            def part_of_reviewed(c, depth=0, seen=()):
+                """c is reviewed / accepted code, or (transitively) a private helper all of whose callers are"""
+                if c in okroots or any(c.startswith(r + "::") for r in okroots if not r.startswith("<")):
+                    return True
+                if depth >= 3 or c in seen:
+                    return False
+                cc = {_root(k.body.npath) for k in prog.who_calls(c) if k.body.crate.startswith("pasfmt")}
+                return bool(cc) and all(part_of_reviewed(k, depth + 1, seen + (c,)) for k in cc)
+            if callers and all(part_of_reviewed(c) for c in callers):
                 accepted[x] = "helper called only from reviewed code: " + ", ".join(sorted(short(c) for c in callers))
                 changed = True
     return accepted
@@ -1281,12 +1290,13 @@ def check_c10(prog, rep, tier, cfg):
         inventory(rep, R, "readers of FormattingConfig." + f, readers(prog, FC, f), [CONV_RS, DOCS] + SERDE, "indentation options are interpreted at exactly one conversion site")
     cv = prog.body(CONV_RS)
     if rep.check(cv is not None, R, "anchor:conversion", "From<&FormattingConfig> for ReconstructionSettings not found"):
-        t = Table(prog, cv)
+        t = Table(prog, cv, inline=2, opaque=("new", "into", "from"))          # the per-component computations may live in small helpers of the configuration type
         good = len(t.rows) == 2
         rows = []
         for cons, res in t.rows:
             ut = [c[2] for c in cons if c[0] == "cond" and "use_tabs" in c[1]]
             r = render(res)
+            r = re.sub(r"(call:|sym:)?saturating_mul\((place:)?(arg1\.continuation_indents),1\)", r"\3", r)      # x.saturating_mul(1) == x
             rows.append((ut, r))
             if ut and ut[0] == 0:
                 good &= "Soft" in r and "arg1.tab_width" in r and "saturating_mul(arg1.continuation_indents,arg1.tab_width)" in r
